@@ -88,8 +88,8 @@ func (dm *DMap) deleteBackupOnCluster(hkey uint64, key string) error {
 	return g.Wait()
 }
 
-// deleteOnCluster is not a thread-safe function
-func (dm *DMap) deleteOnCluster(hkey uint64, key string, f *fragment) error {
+// deleteOnOtherNodes deletes the key from the previous owners of the partition and from the backups.
+func (dm *DMap) deleteOnOtherNodes(hkey uint64, key string) error {
 	owners := dm.s.primary.PartitionOwnersByHKey(hkey)
 	if len(owners) == 0 {
 		panic("partition owners list cannot be empty")
@@ -105,6 +105,15 @@ func (dm *DMap) deleteOnCluster(hkey uint64, key string, f *fragment) error {
 		if err != nil {
 			return err
 		}
+	}
+	return nil
+}
+
+// deleteOnCluster is not a thread-safe function
+func (dm *DMap) deleteOnCluster(hkey uint64, key string, f *fragment) error {
+	err := dm.deleteOnOtherNodes(hkey, key)
+	if err != nil {
+		return err
 	}
 
 	err = f.storage.Delete(hkey)
@@ -133,7 +142,9 @@ func (dm *DMap) deleteKey(key string) error {
 	if !f.storage.Check(hkey) {
 		// DeleteMisses is the number of deletions reqs for missing keys
 		DeleteMisses.Increase(1)
-		return nil
+		// This node doesn't have the key, but a previous owner of the partition or
+		// a backup may still hold a copy, after a join or a fail-over.
+		return dm.deleteOnOtherNodes(hkey, key)
 	}
 
 	return dm.deleteOnCluster(hkey, key, f)
